@@ -323,6 +323,9 @@ class Model(IOSpecOperation, EditableParent):
 
     def rename(self, name, rename_old=False):
         """Rename the model itself"""
+        if self._impl.system.models.get(self.name) is not self._impl:
+            # Closed: another model may bear its name now
+            raise KeyError(self.name)
         self._impl.system.rename_model(
             new_name=name, old_name=self.name, rename_old=rename_old)
 
